@@ -84,6 +84,10 @@ func c09Setup(L, E int) (*ChannelWriter, *wHandler, []c09Entry, string, *wSrc) {
 	mappings := map[string]string{}
 	for i := 0; i < n; i++ {
 		e := c09Entry{c09Name("map.srcDB", L), c09Name("map.srcColl", L), c09Name("map.dstDB", L), c09Name("map.dstColl", L)}
+		if vBool("map.srcIsDefaultDB") {
+			// mappings of the default database are written with its explicit name
+			e.kdb = util.DefaultDbName
+		}
 		// a whole-database entry maps to a whole database
 		vAssume((e.kcoll == "*") == (e.tcoll == "*"))
 		key := e.kdb + "." + e.kcoll
